@@ -15,12 +15,12 @@ def scaled(raw, k):
 
 
 def near_twin(rng, raw):
-    """Same row with one coefficient moved by a relative 2^-18 (about 4e-6): a different constraint
+    """Same row with one coefficient moved by a relative 2^-17 (about 8e-6): a different constraint
     that a tolerant term equality would take for a duplicate."""
     co, c = raw
-    v = rng.choice(sorted(co))
+    v = min(sorted(co), key=lambda x: (abs(co[x]), x))
     co2 = dict(co)
-    co2[v] = co[v] * (1 + 2.0**-18)
+    co2[v] = co[v] * (1 + 2.0**-17)
     return (co2, c)
 
 
